@@ -16,11 +16,11 @@ Apis == {"RunCode", "Call"}
 \* what the invocation does: finishes normally, raises a run-time error three calls deep, provokes a recovered Go
 \* panic at once or 600 script frames deep, recurses until the frame stack (overflow) or the operand stack (opoverflow)
 \* overflows, or is cancelled mid-run
-Kinds == IF Family = "import" THEN {"normal", "impok", "imperr", "impcancel"}
+Kinds == IF Family = "import" THEN {"impmod", "impok", "imperr", "impcancel"}
          ELSE {"normal", "error", "panic", "deeppanic", "overflow", "opoverflow", "cancelled"}
 \* the context the invocation runs under: cancellable, or context.Background() (no Done channel)
-CtxKinds(kind) == IF kind \in {"normal", "error", "impok", "imperr"} THEN {"cancel", "background"} ELSE {"cancel"}
-Expected(kind) == CASE kind \in {"normal", "impok"} -> "value" [] kind = "imperr" -> "anyerror" [] kind = "impcancel" -> "ctxerr"
+CtxKinds(kind) == IF kind \in {"normal", "error", "impok", "imperr", "impmod"} THEN {"cancel", "background"} ELSE {"cancel"}
+Expected(kind) == CASE kind \in {"normal", "impok", "impmod"} -> "value" [] kind = "imperr" -> "anyerror" [] kind = "impcancel" -> "ctxerr"
                     [] kind = "error" -> "index error" [] kind \in {"panic", "deeppanic"} -> "panic"
                     [] kind \in {"overflow", "opoverflow"} -> "anyerror" [] kind = "cancelled" -> "ctxerr"
 \* invocation i may cancel the context of any earlier invocation (the interesting ones: those that finished)
